@@ -228,17 +228,21 @@ def run_check(pid, tier, seed, replay=None):
     groups = list(check.groups(tier, seed))
     jobs = [(i, g, tier, seed) for i, g in enumerate(groups)]
     results = []
-    if NWORKERS <= 1 or len(jobs) <= 1:
-        _winit(pid)
-        for j in jobs:
-            results.append(_wrun(j))
-    else:
-        import multiprocessing as mp
+    import multiprocessing as mp
 
-        mpctx = mp.get_context("fork")
-        with mpctx.Pool(min(NWORKERS, len(jobs)), initializer=_winit, initargs=(pid,)) as pool:
-            for r in pool.imap_unordered(_wrun, jobs, chunksize=1):
-                results.append(r)
+    mpctx = mp.get_context("fork")
+    with mpctx.Pool(max(1, min(NWORKERS, max(len(jobs), getattr(check, "parent_parallelism", 1)))), initializer=_winit, initargs=(pid,)) as pool:
+        if hasattr(check, "parent_run"):
+            # engines that need a global frontier (level-synchronous BFS): driven from the parent, expanded in the pool
+            try:
+                for k, r in enumerate(check.parent_run(tier, seed, pool)):
+                    r.setdefault("gi", len(groups))
+                    groups.append(r.pop("group", {"part": "parent_run", "k": k}))
+                    results.append(r)
+            except HarnessError as e:
+                results.append({"harness_error": str(e), "group": "parent_run"})
+        for r in pool.imap_unordered(_wrun, jobs, chunksize=1):
+            results.append(r)
 
     herr = [r for r in results if "harness_error" in r]
     if herr:
